@@ -24,15 +24,15 @@ pub broadcast axiom fn ax_from_io_append(e: std::io::Error, r: AppendError)
     ensures #[trigger] spec_from::<AppendError, std::io::Error>(e, r) ==> r == AppendError::IoError(e);
 
 pub broadcast axiom fn ax_from_exists_create(e: AlreadyExists, r: CreateQueueError)
-    ensures #[trigger] spec_from::<CreateQueueError, AlreadyExists>(e, r) ==> r == <CreateQueueError as FromSpec<AlreadyExists>>::from_spec(e);
+    ensures #[trigger] spec_from::<CreateQueueError, AlreadyExists>(e, r) ==> r == CreateQueueError::AlreadyExists;
 pub broadcast axiom fn ax_from_missing_delete(e: MissingQueue, r: DeleteQueueError)
-    ensures #[trigger] spec_from::<DeleteQueueError, MissingQueue>(e, r) ==> r == <DeleteQueueError as FromSpec<MissingQueue>>::from_spec(e);
+    ensures #[trigger] spec_from::<DeleteQueueError, MissingQueue>(e, r) ==> r == DeleteQueueError::MissingQueue(e.0);
 pub broadcast axiom fn ax_from_missing_truncate(e: MissingQueue, r: TruncateError)
-    ensures #[trigger] spec_from::<TruncateError, MissingQueue>(e, r) ==> r == <TruncateError as FromSpec<MissingQueue>>::from_spec(e);
+    ensures #[trigger] spec_from::<TruncateError, MissingQueue>(e, r) ==> r == TruncateError::MissingQueue(e.0);
 pub broadcast axiom fn ax_from_missing_append(e: MissingQueue, r: AppendError)
-    ensures #[trigger] spec_from::<AppendError, MissingQueue>(e, r) ==> r == <AppendError as FromSpec<MissingQueue>>::from_spec(e);
+    ensures #[trigger] spec_from::<AppendError, MissingQueue>(e, r) ==> r == AppendError::MissingQueue(e.0);
 pub broadcast axiom fn ax_from_mrc_readrecord(e: MultiRecordCorruption, r: ReadRecordError)
-    ensures #[trigger] spec_from::<ReadRecordError, MultiRecordCorruption>(e, r) ==> r == <ReadRecordError as FromSpec<MultiRecordCorruption>>::from_spec(e);
+    ensures #[trigger] spec_from::<ReadRecordError, MultiRecordCorruption>(e, r) ==> r == ReadRecordError::Corruption;
 
 pub broadcast group group_from {
     ax_from_io_readframe, ax_from_io_readrecord, ax_from_io_create, ax_from_io_delete, ax_from_io_truncate,
